@@ -727,7 +727,9 @@ def run(R: Run):
         dshape = (N2, rng.randint(2000, 3200)) if rng.random() < 0.7 else (rng.randint(300, 900), rng.randint(2000, 3200))
         res_s = rng.choice([10, 30, 0.00025, 1.0, 1e-5, 1e-7, 1e3, 1e5])
         S = float_src_affine(rng, res_s)
-        th = rng.choice([1, -1]) * 10 ** rng.uniform(-12, -2)
+        # log-uniform, plus neighbourhoods of the two tolerances a rotation term could be compared with (1e-10, stol)
+        th = rng.choice([1, -1]) * rng.choice([10 ** rng.uniform(-12, -2), 1e-10 * 10 ** rng.uniform(-1, 1),
+                                               1e-3 * 10 ** rng.uniform(-1, 0.5), 1e-3 * 10 ** rng.uniform(-1, 0.5)])
         kind = rng.choice(["rot", "rot", "shear-x", "shear-y"])
         L = {"rot": Affine(math.cos(th), -math.sin(th), 0, math.sin(th), math.cos(th), 0), "shear-x": Affine(1, th, 0, 0, 1, 0),
              "shear-y": Affine(1, 0, 0, th, 1, 0)}[kind]
@@ -905,7 +907,7 @@ def cross_crs(R: Run, O, gb):
             raise ValueError("degenerate")
         return shape, Affine.translation(cx - w / 2, cy + h / 2) * Affine.scale(w / shape[1], -h / shape[0])
 
-    def one_case(a, b, sbox, dbox, pad, al, tag, step=1):
+    def one_case(a, b, sbox, dbox, pad, al, tag, step=1, rows=None, cols=None):
         (sshape, SA), (dshape, DA) = sbox, dbox
         ca, cb = CRS(a), CRS(b)  # fresh wrappers: lazily filled fields (.epsg) start unset
         hist = prior_history(rng, ca, cb)
@@ -930,7 +932,8 @@ def cross_crs(R: Run, O, gb):
         if len(seen) == 2 and rng.random() < 0.25:  # branch structure: boundary samples of BOTH roi_boundary calls
             R.corr(f"c03 nlsamples {dshape[0]} {dshape[1]}", lambda: f"{seen[0]} {seen[1]}", sig="xcrs|samples")
         # independent mapping of the destination pixel centres: dst pixel → dst world → src world → src pixel
-        rows, cols = sub_index(dshape[0], step), sub_index(dshape[1], step)
+        if rows is None:
+            rows, cols = sub_index(dshape[0], step), sub_index(dshape[1], step)
         xx, yy = centres(dshape, rows, cols)
         wx, wy = apply_np(faff(DA), xx, yy)
         sx, sy = tf(b, a).transform(wx, wy)
@@ -960,6 +963,13 @@ def cross_crs(R: Run, O, gb):
                 ok = (abs(r.scale2.x - want[0]) <= 0.02 * want[0] and abs(r.scale2.y - want[1]) <= 0.02 * want[1]
                       and r.scale == min(r.scale2.xy))
                 R.oracle(ok, "xcrs-scale", case, f"scale2={r.scale2} local pixel-size ratios {want}", sig="xcrs|scale")
+                true_sc = min(want)
+                rs_ = int(r.read_shrink)
+                R.oracle(1 <= rs_ <= max(1.0, true_sc * 1.02 + 1e-3) and rs_ >= math.floor(true_sc * 0.98) - (1 if true_sc >= 1 else 0) * 0
+                         and (rs_ >= 1 if true_sc < 1.02 else rs_ >= math.floor(true_sc * 0.98)),
+                         "xcrs-read-shrink-vs-true-scale", case,
+                         f"read_shrink={rs_} but the destination/source pixel-size ratio at the overlap centre is {true_sc:.5f}",
+                         sig="xcrs|read-shrink-true")
             check_scale(R, "xcrs", case, r, None, 0, "xcrs")
         elif anyin is False:
             R.oracle(r.read_shrink == 1 and r.scale == 0, "xcrs-empty-scale", case, f"{r.read_shrink} {r.scale}",
@@ -970,6 +980,102 @@ def cross_crs(R: Run, O, gb):
              ((243, 436), Affine(3766.1889092199294, 0.0, 3704698.1302037463, 0.0, -10559.601883503692, 4296214.5262683)),
              ((381, 135), Affine(25424.821971303223, 0.0, -283748.52998290444, 0.0, -14796.826976711234, 9298944.42478392)),
              0, None, "corpus")
+
+    # ---------------- global / hemispheric geographic grids with edges exactly on ±180 / ±90 (ROIs only, no rasters)
+    RM = 20037508.342789244
+    NCOLS = [360, 720, 1440, 3600, 5400, 7200, 10800, 21600, 43200, 86400, 1000, 4096]
+
+    def geo_grid():
+        lon0, lon1 = rng.choice([(-180, 180), (-180, 180), (0, 180), (-180, 0), (-90, 180), (-180, 45)])
+        lat0, lat1 = rng.choice([(-90, 90), (-90, 90), (0, 90), (-90, 0), (-60, 90)])
+        ncols = rng.choice(NCOLS)
+        res = (lon1 - lon0) / ncols
+        nrows = max(1, round((lat1 - lat0) / res))
+        return (nrows, ncols), Affine(res, 0, lon0, 0, -(lat1 - lat0) / nrows, lat1)
+
+    def proj_window(crs):
+        """a destination / source window in a projected CRS that sees a large part of the globe"""
+        n = rng.choice([256, 300, 512, 777])
+        if crs in ("EPSG:3857", "EPSG:3395"):
+            z = rng.choice([0, 0, 1, 1, 2])
+            t = 2 ** z
+            i, j = rng.randrange(t), rng.randrange(t)
+            r = 2 * RM / (n * t)
+            m = n if rng.random() < 0.7 else n // 2
+            return (n, m), Affine(r, 0, -RM + i * 2 * RM / t, 0, -r, RM - j * 2 * RM / t)
+        if crs == "EPSG:6933":
+            w, h = 17367530.44, 7314540.83
+            fx = rng.choice([(-1, 1), (0, 1), (-1, 0), (-0.5, 1)])
+            return (n // 2, n), Affine((fx[1] - fx[0]) * w / n, 0, fx[0] * w, 0, -2 * h / (n // 2), h)
+        # polar stereographic windows that do not contain the pole and stay on one side of the antimeridian
+        sgn = 1 if crs == "EPSG:3413" else -1
+        cx, cy = rng.choice([(2.0e6, 0.0), (1.5e6, 1.5e6 * sgn), (0.0, 2.2e6), (2.5e6, -1.0e6)])
+        half = rng.choice([0.6e6, 1.0e6])
+        return (n, n), Affine(2 * half / n, 0, cx - half, 0, -2 * half / n, cy + half)
+
+    # corpus: standard EASE-Grid 2.0 global 36 km grid and a global 0.1 degree lat/lon raster, both directions
+    m36 = ((406, 964), Affine(36032.220840584, 0, -17367530.445161372, 0, -36032.220840584, 7314540.8306386))
+    g01 = ((1800, 3600), Affine(0.1, 0, -180, 0, -0.1, 90))
+    one_case("EPSG:4326", "EPSG:6933", g01, m36, None, None, "corpus-global", step=4)
+    one_case("EPSG:6933", "EPSG:4326", m36, g01, None, None, "corpus-global", step=12)
+
+    for _ in range(R.pick(70, 700)):
+        pcrs = rng.choice(["EPSG:3857", "EPSG:3857", "EPSG:3395", "EPSG:6933", "EPSG:3031", "EPSG:3413"])
+        gbox, pbox = geo_grid(), proj_window(pcrs)
+        if pcrs == "EPSG:3031" and gbox[1].f - gbox[0][0] * abs(gbox[1].e) > -60:
+            continue
+        if pcrs == "EPSG:3413" and gbox[1].f < 60:
+            continue
+        pad = rng.choice([None, None, 1, 0])
+        if rng.random() < 0.6:
+            one_case("EPSG:4326", pcrs, gbox, pbox, pad, None, "global-src", step=max(1, pbox[0][0] // 120))
+        else:
+            st = max(1, max(gbox[0]) // 160)
+            one_case(pcrs, "EPSG:4326", pbox, gbox, pad, None, "global-dst",
+                     rows=sub_index(gbox[0][0], st), cols=sub_index(gbox[0][1], st))
+
+    # ---------------- very large destination grids: the overlap sits 1e5 .. 1e7 pixels from the destination origin
+    for _ in range(R.pick(50, 500)):
+        b = rng.choice(["EPSG:3857", "EPSG:3857", "EPSG:3395"])
+        z = rng.randint(6, 15)
+        nn = 256 * 2 ** z
+        rd = 2 * RM / nn
+        dbox = ((nn, nn), Affine(rd, 0, -RM, 0, -rd, RM))
+        a = rng.choice(["EPSG:32633", "EPSG:32755", "EPSG:3577", "EPSG:4326", "EPSG:27700", LAEA_A])
+        area = {**{k: v[0] for k, v in CRS_AREAS.items()}, LAEA_A: (-5, 38, 28, 66)}[a]
+        lon, lat = rng.uniform(area[0] + 0.5, area[2] - 0.5), rng.uniform(max(area[1], -80) + 0.5, min(area[3], 80) - 0.5)
+        ratio = rng.choice([0.3, 1, 2.5, 6, 24, 60])  # destination / source pixel size
+        res_s = rd * math.cos(math.radians(lat)) / ratio
+        if a == "EPSG:4326":
+            res_s /= 111000.0
+        # keep the source footprint inside its area of use (a few degrees at most)
+        span = min(4.0, (area[2] - area[0]) / 2, (area[3] - area[1]) / 2) * 111000.0 * (1 / 111000.0 if a == "EPSG:4326" else 1)
+        maxpx = max(8, int(span * math.cos(math.radians(lat)) / res_s))
+        sshape = (rng.randint(8, min(11000, maxpx)), rng.randint(8, min(11000, maxpx)))
+        lon = min(max(lon, area[0] + 2.2), area[2] - 2.2) if area[2] - area[0] > 5 else (area[0] + area[2]) / 2
+        lat = min(max(lat, area[1] + 2.2), area[3] - 2.2) if area[3] - area[1] > 5 else (area[1] + area[3]) / 2
+        try:
+            sbox = make_box(a, lon, lat, sshape, res_s)
+        except Exception:  # pylint: disable=broad-except
+            continue
+        # check window: independent footprint of the source in destination pixels (pyproj), a few pixels around it
+        (sh, SA) = sbox
+        ex = np.linspace(0, sh[1], 40)
+        ey = np.linspace(0, sh[0], 40)
+        bx = np.concatenate([ex, ex, np.zeros(40), np.full(40, sh[1])])
+        by = np.concatenate([np.zeros(40), np.full(40, sh[0]), ey, ey])
+        wx, wy = apply_np(faff(SA), bx, by)
+        qx, qy = tf(a, b).transform(wx, wy)
+        qx, qy = apply_np(finv(faff(dbox[1])), np.asarray(qx), np.asarray(qy))
+        if not (np.isfinite(qx).all() and np.isfinite(qy).all()):
+            continue
+        c0, c1 = int(max(0, math.floor(qx.min()) - 6)), int(min(nn, math.ceil(qx.max()) + 6))
+        r0, r1 = int(max(0, math.floor(qy.min()) - 6)), int(min(nn, math.ceil(qy.max()) + 6))
+        if c1 - c0 < 2 or r1 - r0 < 2:
+            continue
+        cols = c0 + sub_index(c1 - c0, max(1, (c1 - c0) // 150))
+        rows = r0 + sub_index(r1 - r0, max(1, (r1 - r0) // 150))
+        one_case(a, b, sbox, dbox, rng.choice([None, None, 1]), None, f"worldgrid-z{z}", rows=rows, cols=cols)
 
     # ---------------- small / wide rasters inside the areas of use
     n = R.pick(200, 2000)
